@@ -161,6 +161,8 @@ def run(ck):
                          simulate="num=250", depth=10)
             cases += sim.emitted
     replay_cases(ck, cases)
+    from harness import extras
+    extras.frame_calls(ck)       # specification growth (refinement tier only): call protocol of the aggregate methods
     ck.assumptions += ["float64 vs exact rationals at 1e-9 relative; NaN <-> Undef",
                        "metrics replayed: selection_rate, TPR/FPR/FNR/TNR, accuracy, precision(zero_division=0), zero_one_loss"]
 
